@@ -177,6 +177,17 @@ def rule_request_line(ctx):
     ctx.check(kinds == {"slash", "path"}, R, "path-fallback", "an empty path-and-query is sent as \"/\"", loc=body_loc(part), detail=sorted(kinds))
 
 
+def _sum_norm(l):
+    """leaf -> (sorted non-constant summands, constant) of a sum of additions"""
+    if l[0] == "int":
+        return [], l[1]
+    if l[0] == "term" and l[1][0] == "arith" and l[1][1] == "Add":
+        a, ka = _sum_norm(l[1][2])
+        b, kb = _sum_norm(l[1][3])
+        return sorted(a + b, key=repr), ka + kb
+    return [l], 0
+
+
 def rule_header_lines(ctx):
     R = "R02.3"
     prog = ctx.prog
@@ -185,7 +196,7 @@ def rule_header_lines(ctx):
         return
     # one pass of the line loop, whatever is hoisted out of / captured by the line closure: the writer is run on a
     # symbolic field iterator; the pieces emitted for the first field are compared with the line format
-    I = _mk(prog, loop_bound=1)
+    I = _mk(prog, loop_bound=2)
     IDX, LAST = ("term", ("in", "index")), ("term", ("in", "last"))
 
     def init(st):
@@ -220,7 +231,15 @@ def rule_header_lines(ctx):
             if k[0] == "eq" and v[0] == "bool" and set((k[1], k[2])) == {IDX, LAST}:
                 g = v[1]
             elif k[0] in ("eq", "lt") and v[0] == "bool" and "('in', 'index')" in repr(k) and "('in', 'last')" in repr(k) and "'widen'" not in repr(k):
-                bad.append("the blank line is tied to %s instead of `index == last index`" % (k[0] + repr(k[1:])[:120]))
+                # the guard of a later line of the same pass compares the running index: index + (lines before it)
+                later = False
+                if k[0] == "eq":
+                    for x, y in ((k[1], k[2]), (k[2], k[1])):
+                        bs, kk = _sum_norm(x)
+                        if y == LAST and bs == [IDX] and 1 <= kk <= sum(1 for p in flat if p[0] == "arg") - 1:
+                            later = True
+                if not later:
+                    bad.append("the blank line is tied to %s instead of `index == last index`" % (k[0] + repr(k[1:])[:120]))
         seen_guard.add(g)
         want = [("arg", "display"), ("lit", b": "), ("raw",), ("lit", b"\r\n")] + ([("lit", b"\r\n")] if g else [])
         got = [(p[0], p[1]) if p[0] in ("arg", "lit") else (p[0],) for p in first]
@@ -259,6 +278,14 @@ def rule_header_lines(ctx):
                 sem_bad.append("after a line that did not fit the writer goes on with further lines")
             if not failed and attempts >= 1 and idx == IDX:
                 sem_bad.append("a completely written line does not advance the index")
+        if "'widen'" not in repr(idx) and "'hv'" not in repr(idx):
+            # the index has advanced by exactly the number of completely written lines
+            done = attempts - (1 if failed else 0)
+            base_, k_ = _sum_norm(idx)
+            if base_ == [IDX] and k_ != done:
+                sem_bad.append("the index advances by %d after %d completely written line(s)" % (k_, done))
+            elif base_ != [IDX] and not (done == 0 and idx == IDX):
+                sem_bad.append("the index after %d written line(s) is %s" % (done, repr(idx)[:80]))
     sem_ok = n_paths >= 2 and not sem_bad
     ctx._c02_loop_semantics = (sem_ok, sorted(set(sem_bad)))
     ctx.check(nfull >= 2 and seen_guard == {True, False} and not bad, R, "header-line",
@@ -305,7 +332,7 @@ def rule_header_lines(ctx):
     ok = bool(inc_blocks) and sw is not None and all(sw[2] in dom.get(b, set()) for b in inc_blocks) and \
         all(not any(f in dom.get(b, set()) for f in sw[1]) for b in inc_blocks)
     sem_ok, sem_bad = getattr(ctx, "_c02_loop_semantics", (False, []))
-    ctx.check(ok or sem_ok, "R02.4", "index-on-success", "the header index advances exactly for completely written lines (dominance of the success edge, "
+    ctx.check((ok or sem_ok) and not sem_bad, "R02.4", "index-on-success", "the header index advances exactly for completely written lines (dominance of the success edge, "
               "or the same fact on the abstract paths of the line loop)", loc=body_loc(dw), detail=sem_bad[:3])
     # the line loop is left only when the lines are exhausted or a line did not fit (its try_write failed): any
     # other exit gives up on a line without attempting it, and "overflow exactly when not even the next line fits"
